@@ -15,6 +15,13 @@ def evidence_dir():
     return os.environ.get("FIR_EVIDENCE_DIR") or os.path.join(VERIF, "evidence")
 
 
+def _modless(key):
+    """`a::b::Type::method` -> `Type::method` inside a key (paths that end in a free function
+    are left alone)"""
+    import re as _re
+    return _re.sub(r"\b(?:[a-z_][a-z0-9_]*::)+([A-Z][A-Za-z0-9_]*(?:<[^|>]*>)?::)", r"\1", key)
+
+
 def load_known():
     """known_findings.txt: one entry per line,
          known: property=<id> key=<rule>|<key> :: <what fails>
@@ -145,10 +152,16 @@ class Report:
         known = [k for k in load_known() if k.get("property") == self.prop]
         known_keys = {k["key"]: k for k in known if k.get("status") == "known"}
         viol, known_hits = {}, {}
+        modless_keys = {_modless(k): k for k in known_keys}
         for inst in self.instances:
             if inst.verdict != VIOLATION:
                 continue
             full = "%s|%s" % (inst.rule, inst.key)
+            if full not in known_keys and _modless(full) in modless_keys:
+                # the item moved to another module: `Type::method` identifies it, the module path
+                # is the author's choice (free functions keep their path: there the module, e.g.
+                # the pixel type, is the identity)
+                full = modless_keys[_modless(full)]
             if full in known_keys:
                 known_hits.setdefault(full, []).append(inst)
             else:
